@@ -646,7 +646,7 @@ func (j *probeJudge) judge(pr *probeResult, scenario string, schedule []string) 
 	}
 	j.mu.Lock()
 	j.n++
-	if j.n <= 2 {
+	if j.n <= 1 {
 		r.Sample(map[string]interface{}{"part": "stateless-state", "scenario": scenario, "config": pr.Config, "kind": pr.Kind, "normalised_answer": pr.Norm})
 	}
 	j.mu.Unlock()
